@@ -63,6 +63,7 @@ Lemma run_main um t f s0 :
   clean s0 ->
   clean (snd (run C um t f s0)) /\
   meta (snd (run C um t f s0)) = meta s0 /\ rctx (snd (run C um t f s0)) = rctx s0 /\
+  cdicts (snd (run C um t f s0)) = cdicts s0 /\
   next s0 <= next (snd (run C um t f s0)) /\
   fst (run C um t f s0) = spec_outcome um t f.
 Proof.
@@ -75,7 +76,7 @@ Proof.
   assert (Hf : fault s = f) by reflexivity. rewrite Hf in Cc.
   pose proof (step_none_clean s s' Hcs A) as Hc'.
   unfold run, spec_outcome. fold s. rewrite Hrun.
-  destruct K as [K1 K2]. pose proof (st_next _ _ _ _ A) as Hn.
+  destruct K as [K1 [K2 K3]]. pose proof (st_next _ _ _ _ A) as Hn.
   destruct (sp_prep_items um true t f) as [k|e]; cbn [ctl] in Cc.
   - destruct Cc as [[a ->] _]. cbn [fst snd]. repeat split; try apply Hc'; auto.
   - destruct Cc as [-> _]. destruct e as [c m|k]; cbn [fst snd]; repeat split; try apply Hc'; auto.
@@ -88,12 +89,13 @@ Lemma tables_empty_from_clean_lemma um t f s0 : clean s0 -> clean (snd (run C um
 Proof. intro H. apply (run_main um t f s0 H). Qed.
 
 Lemma stacks_restored_lemma um t f s0 :
-  clean s0 -> meta (snd (run C um t f s0)) = meta s0 /\ rctx (snd (run C um t f s0)) = rctx s0.
-Proof. intro H. destruct (run_main um t f s0 H) as [_ [H1 [H2 _]]]. split; assumption. Qed.
+  clean s0 -> meta (snd (run C um t f s0)) = meta s0 /\ rctx (snd (run C um t f s0)) = rctx s0 /\
+              cdicts (snd (run C um t f s0)) = cdicts s0.
+Proof. intro H. destruct (run_main um t f s0 H) as [_ [H1 [H2 [H3 _]]]]. repeat split; assumption. Qed.
 
 Lemma stacks_empty_lemma um t f : stacks_empty (snd (run C um t f init)) = true.
 Proof.
-  destruct (stacks_restored_lemma um t f init clean_init) as [H1 H2]. unfold stacks_empty. rewrite H1, H2. reflexivity.
+  destruct (stacks_restored_lemma um t f init clean_init) as [H1 [H2 H3]]. unfold stacks_empty. rewrite H1, H2, H3. reflexivity.
 Qed.
 
 Lemma outcome_is_spec_lemma um t f s0 : clean s0 -> fst (run C um t f s0) = spec_outcome um t f.
@@ -153,25 +155,26 @@ Lemma run_seq_lemma um : forall h s0,
   clean s0 ->
   fst (run_seq C um h s0) = map (fun tf => spec_outcome um (fst tf) (snd tf)) h /\
   clean (snd (run_seq C um h s0)) /\
-  meta (snd (run_seq C um h s0)) = meta s0 /\ rctx (snd (run_seq C um h s0)) = rctx s0.
+  meta (snd (run_seq C um h s0)) = meta s0 /\ rctx (snd (run_seq C um h s0)) = rctx s0 /\
+  cdicts (snd (run_seq C um h s0)) = cdicts s0.
 Proof.
   induction h as [|[t f] h IH]; intros s0 Hc; cbn [run_seq map fst snd].
   - splits; auto.
-  - destruct (run_main um t f s0 Hc) as [Hc1 [Hm1 [Hr1 [_ Ho]]]].
+  - destruct (run_main um t f s0 Hc) as [Hc1 [Hm1 [Hr1 [Hd1 [_ Ho]]]]].
     destruct (run C um t f s0) as [o s1] eqn:Er. cbn [fst snd] in *.
-    destruct (IH s1 Hc1) as [Ho2 [Hc2 [Hm2 Hr2]]].
+    destruct (IH s1 Hc1) as [Ho2 [Hc2 [Hm2 [Hr2 Hd2]]]].
     destruct (run_seq C um h s1) as [os s2]. cbn [fst snd] in *.
-    splits; [congruence | exact Hc2 | congruence | congruence].
+    splits; [congruence | exact Hc2 | congruence | congruence | congruence].
 Qed.
 
 Lemma history_lemma um h :
   fst (run_seq C um h init) = map (fun tf => fst (run C um (fst tf) (snd tf) init)) h /\
   tables_empty (snd (run_seq C um h init)) = true /\ stacks_empty (snd (run_seq C um h init)) = true.
 Proof.
-  destruct (run_seq_lemma um h init clean_init) as [Ho [Hc [Hm Hr]]]. split; [| split].
+  destruct (run_seq_lemma um h init clean_init) as [Ho [Hc [Hm [Hr Hd]]]]. split; [| split].
   - rewrite Ho. apply map_ext. intros [t f]. cbn [fst snd]. symmetry. apply outcome_is_spec_lemma. exact clean_init.
   - apply clean_tables_empty. exact Hc.
-  - unfold stacks_empty. rewrite Hm, Hr. reflexivity.
+  - unfold stacks_empty. rewrite Hm, Hr, Hd. reflexivity.
 Qed.
 
 Local Close Scope N_scope.
